@@ -3,6 +3,7 @@ package main
 
 import (
 	"fmt"
+	"os"
 	"strings"
 
 	"github.com/cnotch/ipchub/av/format/rtp"
@@ -29,6 +30,7 @@ type sym struct {
 	headers map[string]string
 	body    string
 	raw     bool // disconnect
+	udpFail bool // the next attempt of the server to open a UDP socket fails (environment fault)
 }
 
 const base = "rtsp://h/live/cam"
@@ -65,6 +67,7 @@ func alphabet() []sym {
 		{name: "SETUP-bad-transport", method: "SETUP", url: base + "/streamid=0", headers: badT},
 		{name: "SETUP-unknown-control", method: "SETUP", url: base + "/streamid=7", headers: tcpV},
 		{name: "PLAY", method: "PLAY", url: base},
+		{name: "PLAY-udp-socket-unavailable", method: "PLAY", url: base, udpFail: true},
 		{name: "RECORD", method: "RECORD", url: pub},
 		{name: "PAUSE", method: "PAUSE", url: base},
 		{name: "GET_PARAMETER", method: "GET_PARAMETER", url: base},
@@ -350,7 +353,11 @@ func run(transport string, hist []sym) outcome {
 				vrt.WhenIdle()
 				r.state = "closed"
 			} else {
+				if s.udpFail {
+					vnet.FailNextListenUDP(1)
+				}
 				cs, items = c.Do(s)
+				vnet.FailNextListenUDP(0)
 			}
 			// the publisher keeps publishing: one packet after every request
 			seq++
@@ -530,13 +537,27 @@ func run(transport string, hist []sym) outcome {
 func main() {
 	xlog.ReplaceGlobal(xlog.New(xlog.NewNopCore()))
 	rep := report.New("C12", "model_checking")
-	rep.Rule = "explicit-state BFS over request sequences (26-symbol alphabet: OPTIONS, DESCRIBE existing/second stream/missing, ANNOUNCE valid/over a live path/wrong type/malformed/no formats, SETUP video|audio x tcp|tcp other channels|udp|multicast|record|bad transport|unknown control, PLAY, RECORD, PAUSE, GET_PARAMETER, TEARDOWN, unknown method, disconnect) on real sessions of all three transports (service/rtsp Session over an in-memory TCP connection, the same Session over a fake message-oriented websocket, service/wsp Session with control and data channel) while a publisher keeps publishing; every transition is checked against a reference automaton written from the statement (one response, CSeq, Session, 455 for illegal methods, unchanged state on refusal, no media before PLAY, no publication before RECORD, release on TEARDOWN/disconnect)"
+	rep.Rule = "explicit-state BFS over request sequences (27-symbol alphabet: OPTIONS, DESCRIBE existing/second stream/missing, ANNOUNCE valid/over a live path/wrong type/malformed/no formats, SETUP video|audio x tcp|tcp other channels|udp|multicast|record|bad transport|unknown control, PLAY, PLAY with the server's UDP socket unavailable, RECORD, PAUSE, GET_PARAMETER, TEARDOWN, unknown method, disconnect) on real sessions of all three transports (service/rtsp Session over an in-memory TCP connection, the same Session over a fake message-oriented websocket, service/wsp Session with control and data channel) while a publisher keeps publishing; every transition is checked against a reference automaton written from the statement (one response, CSeq, Session, 455 for illegal methods, unchanged state on refusal, no media before PLAY, no publication before RECORD, release on TEARDOWN/disconnect)"
 	rep.Assumptions = []string{"state key = reference automaton state + (session status, mode, transport type, consumer role, publisher role): handlers read nothing else", "ws-rtsp and WSP variants run the same automaton over a message-oriented fake websocket"}
 	depth := 5
 	if rep.Thorough() {
 		depth = 12
 	}
 	al := alphabet()
+	if only := os.Getenv("C12_ONLY"); only != "" { // debugging aid: run one history, e.g. "tcp|DESCRIBE SETUP-video-tcp PLAY"
+		parts := strings.SplitN(only, "|", 2)
+		var h []sym
+		for _, n := range strings.Fields(parts[1]) {
+			for _, a := range al {
+				if a.name == n {
+					h = append(h, a)
+				}
+			}
+		}
+		o := run(parts[0], h)
+		fmt.Printf("history %s -> key=%q sig=%q detail=%q\n", only, o.key, o.sig, o.det)
+		return
+	}
 	var states, trans int64
 	perTransport := map[string]interface{}{}
 	for _, transport := range []string{"tcp", "ws-rtsp", "wsp"} {
